@@ -94,8 +94,13 @@ def make_case(rng, s, idx):
     nconn = max([x["k"] for x in steps] + [1])
     scens = []
     hv = (not tamper) and rng.random() < 0.4
+    # a quarter of the histories: one side is configured for DTLS 1.2 AND 1.3 (the peer for 1.2 only, so 1.2 is negotiated and
+    # sessions are created, looked up, resumed and evicted as on a 1.2-only endpoint)
+    layout = rng.choice([("12", "12")] * 6 + [("12", "dual"), ("dual", "12")]) if not tamper else ("12", "12")
     for _ in range(nconn):
         sc = dict(rng.choice(FAM[fam]), ver="12", helloVerify=hv)
+        if layout != ("12", "12"):
+            sc.update(cver=layout[0], sver=layout[1])
         scens.append(sc)
     name = "%s/%05d/%s" % (s["content"], idx, "+".join("%s%d%s" % (x["act"][:2], x["k"], "".join(a[:3] for a in x["arg"])) for x in steps))
     return {"name": name[:200], "content": s["content"], "scens": scens, "steps": steps}
